@@ -8,18 +8,21 @@ later build is a builder that is scheduled later, a repository update is the cho
 ids (`hk`, `gk`) the index builders are given.
 
 Proved for ALL directories satisfying `GoodFS`, ALL pools of well-typed builders, ALL schedules:
-* `inv_step`, `inv_runSched`        the advertise invariant is inductive over every step except the
-                                    `.dat.tar` regeneration write (`Op.regen`, `PackageData`);
-* `adv_invariant_partial`           in every state reachable without that write, every advertised name
-                                    that resolves holds the complete content it names;
-* `AdvInvariantFull`, `adv_invariant_fails`  the full statement (with the regeneration write) and the
-                                    witness on which it fails: builder 0 stops between advertising
-                                    `.dat.tar.gz` and `.dat.tar` (crash, or merely slower), builder 1
-                                    takes the hit path and creates `.dat.tar` under its final name —
-                                    F19a; `f19a_silent` shows a third builder then *uses* the partial file;
+* `inv_step`, `inv_runSched`        the advertise invariant is inductive over every step of every builder;
+* `adv_invariant`                   in every reachable state every advertised name that resolves holds the
+                                    complete content it names (full statement; closes after the fix F19a:
+                                    `PackageData` now regenerates `.dat.tar` into a temp and renames it);
+* `f19a_state`, `adv_invariant_fails_before_fix`, `f19a_silent`  the builder of the tree *before* the fix
+                                    (`pkgBuilderOld`: `os.Create` under the final name) violates the same
+                                    statement: builder 0 stops between advertising `.dat.tar.gz` and
+                                    `.dat.tar` (crash, or merely slower), builder 1 takes the hit path and
+                                    creates `.dat.tar` under its final name; a third builder then *uses*
+                                    the partial file and succeeds.  Witness replayed on the Go code:
+                                    corpus/cache/F19a.json;
 * `hit_correct`                     whatever any builder reads through an advertised name is the
                                     complete content named (what a fetch would have produced);
-* `adv_persist`, `resolves_stable`  advertised entries are never removed or retargeted;
+* `adv_present_persist`, `resolves_stable`  advertised entries are never removed (only ever replaced by
+                                    the same complete content);
 * `recovery_live_index`, `recovery_live_pkg`  from any good directory (any crash state) a builder with
                                     fresh temp names completes, reading complete, correctly named content;
 * `offline_safe`, `offline_partial_tmp_is_error`  offline: error or the complete content of an entry;
@@ -58,26 +61,27 @@ theorem inv_init (fs : FS) (P : Nat → Proc) (hg : GoodFS fs.get) (hP : FreshPo
   · intro i; obtain ⟨prog, hp, hw⟩ := hP i; rw [hp]; exact hw
   · intro i n c b k hm; obtain ⟨prog, hp, _⟩ := hP i; rw [hp] at hm; cases hm
 
-/-- T: the invariant holds along every schedule on which nobody performs the regeneration write -/
-theorem inv_runSched (sched : List Nat) (s : State) (h : Inv s.fs.get s.procs)
-    (hr : regenFree sched s) : Inv (runSched sched s).fs.get (runSched sched s).procs := by
+/-- T: the invariant holds along every schedule -/
+theorem inv_runSched (sched : List Nat) (s : State) (h : Inv s.fs.get s.procs) :
+    Inv (runSched sched s).fs.get (runSched sched s).procs := by
   induction sched generalizing s with
   | nil => exact h
   | cons i rest ih =>
     simp only [runSched]
-    exact ih (s.step i) (inv_step s i h hr.1) hr.2
+    exact ih (s.step i) (inv_step s i h)
 
 /-- the property of a reachable directory: an advertised name that resolves holds the complete
 content identified by its name -/
 def AdvOk (fs : FS) : Prop := ∀ k c b, fs.resolve (.adv k) = some (c, b) → c = k ∧ b = true
 
-/-- T `adv_invariant_partial`: any good starting directory (empty, or left behind by any earlier
-history), any number of builders, any interleaving, any crash prefixes, any revisions — as long as
-the `.dat.tar` regeneration write is not performed. -/
-theorem adv_invariant_partial (fs0 : FS) (P : Nat → Proc) (sched : List Nat)
-    (hg : GoodFS fs0.get) (hP : FreshPool P) (hr : regenFree sched ⟨fs0, P⟩) :
+/-- T `adv_invariant` (full statement): any good starting directory (empty, or left behind by any
+earlier history), any number of builders, any interleaving, any crash prefixes (a builder that is
+never scheduled again), any revisions — every advertised name that resolves holds the complete
+content identified by its name. -/
+theorem adv_invariant (fs0 : FS) (P : Nat → Proc) (sched : List Nat)
+    (hg : GoodFS fs0.get) (hP : FreshPool P) :
     AdvOk (runSched sched ⟨fs0, P⟩).fs := by
-  have h := inv_runSched sched ⟨fs0, P⟩ (inv_init fs0 P hg hP) hr
+  have h := inv_runSched sched ⟨fs0, P⟩ (inv_init fs0 P hg hP)
   intro k c b hres
   rw [resolve_eq] at hres
   exact good_resolve h.good hres
@@ -86,15 +90,10 @@ theorem adv_invariant_partial (fs0 : FS) (P : Nat → Proc) (sched : List Nat)
 name (cache hits of `cachedPackage`, the index opened by `fetchAndCache`, the reads after
 `cachePackage`) is the complete content that name identifies — the sections a fetch would produce. -/
 theorem hit_correct (fs0 : FS) (P : Nat → Proc) (sched : List Nat)
-    (hg : GoodFS fs0.get) (hP : FreshPool P) (hr : regenFree sched ⟨fs0, P⟩)
+    (hg : GoodFS fs0.get) (hP : FreshPool P)
     (i : Nat) (k c : Cid) (b : Bool)
     (hm : (Name.adv k, c, b) ∈ ((runSched sched ⟨fs0, P⟩).procs i).obs) : c = k ∧ b = true :=
-  (inv_runSched sched ⟨fs0, P⟩ (inv_init fs0 P hg hP) hr).obsOk i _ c b k hm rfl
-
-/-- the full statement, with the regeneration write allowed -/
-def AdvInvariantFull : Prop :=
-  ∀ (fs0 : FS) (P : Nat → Proc) (sched : List Nat), GoodFS fs0.get → FreshPool P →
-    AdvOk (runSched sched ⟨fs0, P⟩).fs
+  (inv_runSched sched ⟨fs0, P⟩ (inv_init fs0 P hg hP)).obsOk i _ c b k hm rfl
 
 /-! ### the builders are well-typed (the theorems above apply to them) -/
 
@@ -110,11 +109,12 @@ theorem wt_advertise (Γ : Ctx) (t : Name) (k : Cid) (rest : Prog)
 
 theorem wt_pkgUse (Γ : Ctx) (k1 : Cid) : wt Γ (pkgUse k1) := ⟨trivial, trivial⟩
 
-theorem wt_pkgData (Γ : Ctx) (k2 k3 : Cid) (n : Nat) (rest : Prog) (hr : ∀ Γ', wt Γ' rest) :
-    wt Γ (pkgData k2 k3 n rest) := by
-  refine ⟨⟨trivial, hr _⟩, trivial, trivial, trivial, ?_⟩
+theorem wt_pkgData (Γ : Ctx) (t4 : Name) (k2 k3 : Cid) (n : Nat) (rest : Prog)
+    (h4 : Γ t4 = .unborn) (ht : t4.isTmp = true) (hr : ∀ Γ', wt Γ' rest) :
+    wt Γ (pkgData t4 k2 k3 n rest) := by
+  refine ⟨⟨trivial, hr _⟩, trivial, trivial, ⟨h4, ht⟩, trivial, ?_⟩
   refine wt_chunks _ n _ k3 _ (by simp [ctxStep, Ctx.upd]) ?_
-  refine ⟨trivial, ⟨k3, by simp [ctxStep, Ctx.upd]⟩, trivial, trivial, hr _⟩
+  refine ⟨⟨k3, by simp [ctxStep, Ctx.upd]⟩, ⟨k3, by simp [ctxStep, Ctx.upd], rfl⟩, trivial, trivial, hr _⟩
 
 theorem wt_indexOnline (t : Name) (hk gk : Cid) (n : Nat) (ht : t.isTmp = true) :
     wt (fun _ => .unborn) (indexOnline t hk gk n) := by
@@ -126,57 +126,64 @@ theorem wt_indexOnline (t : Name) (hk gk : Cid) (n : Nat) (ht : t.isTmp = true) 
 theorem wt_indexOffline (cands : List Name) : wt (fun _ => .unborn) (indexOffline cands) :=
   ⟨trivial, trivial⟩
 
-theorem wt_pkgMiss (t1 t2 t3 : Name) (k1 k2 k3 : Cid) (n : Nat)
-    (h1 : t1.isTmp = true) (h2 : t2.isTmp = true) (h3 : t3.isTmp = true)
-    (h12 : t1 ≠ t2) (h13 : t1 ≠ t3) (h23 : t2 ≠ t3) :
-    wt (fun _ => .unborn) (pkgMiss t1 t2 t3 k1 k2 k3 n) := by
+theorem wt_pkgMiss (t1 t2 t3 t4 : Name) (k1 k2 k3 : Cid) (n : Nat)
+    (h1 : t1.isTmp = true) (h2 : t2.isTmp = true) (h3 : t3.isTmp = true) (h4 : t4.isTmp = true)
+    (h12 : t1 ≠ t2) (h13 : t1 ≠ t3) (h23 : t2 ≠ t3) (h14 : t1 ≠ t4) (h24 : t2 ≠ t4) (h34 : t3 ≠ t4) :
+    wt (fun _ => .unborn) (pkgMiss t1 t2 t3 t4 k1 k2 k3 n) := by
   have h21 := h12.symm
   have h31 := h13.symm
   have h32 := h23.symm
+  have h41 := h14.symm
+  have h42 := h24.symm
+  have h43 := h34.symm
   refine ⟨trivial, trivial, trivial, ⟨rfl, h1⟩, trivial, ?_⟩
-  refine wt_chunks _ n t1 k1 _ (by simp [ctxStep, Ctx.upd, h12, h13, h23, h21, h31, h32]) ?_
-  refine ⟨⟨k1, by simp [ctxStep, Ctx.upd, h12, h13, h23, h21, h31, h32]⟩, trivial, ⟨by simp [ctxStep, Ctx.upd, h12, h13, h23, h21, h31, h32], h2⟩, trivial,
+  refine wt_chunks _ n t1 k1 _ (by simp [ctxStep, Ctx.upd]) ?_
+  refine ⟨⟨k1, by simp [ctxStep, Ctx.upd]⟩, trivial,
+    ⟨by simp [ctxStep, Ctx.upd, h12, h13, h23, h21, h31, h32], h2⟩, trivial,
     ⟨by simp [ctxStep, Ctx.upd, h12, h13, h23, h21, h31, h32], h3⟩, trivial, ?_⟩
   refine wt_chunks _ n t2 k2 _ (by simp [ctxStep, Ctx.upd, h12, h13, h23, h21, h31, h32]) ?_
   refine wt_chunks _ n t3 k3 _ (by simp [ctxStep, Ctx.upd, h12, h13, h23, h21, h31, h32]) ?_
-  refine ⟨⟨k3, by simp [ctxStep, Ctx.upd, h12, h13, h23, h21, h31, h32]⟩, ⟨k2, by simp [ctxStep, Ctx.upd, h12, h13, h23, h21, h31, h32]⟩, trivial, trivial,
+  refine ⟨⟨k3, by simp [ctxStep, Ctx.upd, h12, h13, h23, h21, h31, h32]⟩,
+    ⟨k2, by simp [ctxStep, Ctx.upd, h12, h13, h23, h21, h31, h32]⟩, trivial, trivial,
     trivial, trivial, ?_⟩
   refine wt_advertise _ t1 k1 _ (by simp [ctxStep, Ctx.upd, h12, h13, h23, h21, h31, h32]) ⟨trivial, ?_⟩
   refine wt_advertise _ t2 k2 _ (by simp [ctxStep, Ctx.upd, h12, h13, h23, h21, h31, h32]) ⟨trivial, ?_⟩
   refine wt_advertise _ t3 k3 _ (by simp [ctxStep, Ctx.upd, h12, h13, h23, h21, h31, h32]) ⟨trivial, ?_⟩
-  exact wt_pkgData _ k2 k3 n _ (fun Γ' => wt_pkgUse Γ' k1)
+  exact wt_pkgData _ t4 k2 k3 n _
+    (by simp [ctxStep, Ctx.upd, h12, h13, h23, h21, h31, h32, h41, h42, h43]) h4
+    (fun Γ' => wt_pkgUse Γ' k1)
 
-theorem wt_pkgBuilder (t1 t2 t3 : Name) (k1 k2 k3 : Cid) (n : Nat)
-    (h1 : t1.isTmp = true) (h2 : t2.isTmp = true) (h3 : t3.isTmp = true)
-    (h12 : t1 ≠ t2) (h13 : t1 ≠ t3) (h23 : t2 ≠ t3) :
-    wt (fun _ => .unborn) (pkgBuilder t1 t2 t3 k1 k2 k3 n) :=
-  ⟨⟨trivial, wt_pkgData _ k2 k3 n _ (fun Γ' => wt_pkgUse Γ' k1),
-      wt_pkgMiss t1 t2 t3 k1 k2 k3 n h1 h2 h3 h12 h13 h23⟩,
-    wt_pkgMiss t1 t2 t3 k1 k2 k3 n h1 h2 h3 h12 h13 h23⟩
+theorem wt_pkgBuilder (t1 t2 t3 t4 : Name) (k1 k2 k3 : Cid) (n : Nat)
+    (h1 : t1.isTmp = true) (h2 : t2.isTmp = true) (h3 : t3.isTmp = true) (h4 : t4.isTmp = true)
+    (h12 : t1 ≠ t2) (h13 : t1 ≠ t3) (h23 : t2 ≠ t3) (h14 : t1 ≠ t4) (h24 : t2 ≠ t4) (h34 : t3 ≠ t4) :
+    wt (fun _ => .unborn) (pkgBuilder t1 t2 t3 t4 k1 k2 k3 n) :=
+  ⟨⟨trivial, wt_pkgData _ t4 k2 k3 n _ rfl h4 (fun Γ' => wt_pkgUse Γ' k1),
+      wt_pkgMiss t1 t2 t3 t4 k1 k2 k3 n h1 h2 h3 h4 h12 h13 h23 h14 h24 h34⟩,
+    wt_pkgMiss t1 t2 t3 t4 k1 k2 k3 n h1 h2 h3 h4 h12 h13 h23 h14 h24 h34⟩
 
-theorem wt_pkgOffline (k1 k2 k3 : Cid) (n : Nat) : wt (fun _ => .unborn) (pkgOffline k1 k2 k3 n) :=
-  ⟨⟨trivial, wt_pkgData _ k2 k3 n _ (fun Γ' => wt_pkgUse Γ' k1), trivial⟩, trivial⟩
+theorem wt_pkgOffline (t4 : Name) (k1 k2 k3 : Cid) (n : Nat) (h4 : t4.isTmp = true) :
+    wt (fun _ => .unborn) (pkgOffline t4 k1 k2 k3 n) :=
+  ⟨⟨trivial, wt_pkgData _ t4 k2 k3 n _ rfl h4 (fun Γ' => wt_pkgUse Γ' k1), trivial⟩, trivial⟩
 
-/-! ### F19a: the regeneration write under the final name breaks the invariant -/
+/-! ### F19a: the regeneration write under the final name (the tree before the fix) breaks the invariant -/
 
-/-- two builders for the same package (control 1, data 2, tar 3), one byte chunk each -/
+/-- three builders of the tree before the fix, for the same package (control 1, data 2, tar 3) -/
 def f19aPool : Nat → Proc
-  | 0 => Proc.new (pkgBuilder (.tmp 1) (.tmp 2) (.tmp 3) 1 2 3 1)
-  | 1 => Proc.new (pkgBuilder (.tmp 4) (.tmp 5) (.tmp 6) 1 2 3 1)
-  | 2 => Proc.new (pkgBuilder (.tmp 7) (.tmp 8) (.tmp 9) 1 2 3 1)
+  | 0 => Proc.new (pkgBuilderOld (.tmp 1) (.tmp 2) (.tmp 3) 1 2 3 1)
+  | 1 => Proc.new (pkgBuilderOld (.tmp 4) (.tmp 5) (.tmp 6) 1 2 3 1)
+  | 2 => Proc.new (pkgBuilderOld (.tmp 7) (.tmp 8) (.tmp 9) 1 2 3 1)
+  | _ => Proc.new (.halt true)
+
+/-- the same three builders on the repaired tree -/
+def fixedPool : Nat → Proc
+  | 0 => Proc.new (pkgBuilder (.tmp 1) (.tmp 2) (.tmp 3) (.tmp 10) 1 2 3 1)
+  | 1 => Proc.new (pkgBuilder (.tmp 4) (.tmp 5) (.tmp 6) (.tmp 11) 1 2 3 1)
+  | 2 => Proc.new (pkgBuilder (.tmp 7) (.tmp 8) (.tmp 9) (.tmp 12) 1 2 3 1)
   | _ => Proc.new (.halt true)
 
 /-- builder 0 runs until it has advertised `.ctl.tar.gz` and `.dat.tar.gz` (26 steps) and stops
 (killed, or just slow); builder 1 takes the hit path and creates `.dat.tar` (6 steps) -/
 def f19aSched : List Nat := List.replicate 26 0 ++ List.replicate 6 1
-
-theorem f19aPool_fresh : FreshPool f19aPool := by
-  intro i
-  match i with
-  | 0 => exact ⟨_, rfl, wt_pkgBuilder _ _ _ 1 2 3 1 rfl rfl rfl (by decide) (by decide) (by decide)⟩
-  | 1 => exact ⟨_, rfl, wt_pkgBuilder _ _ _ 1 2 3 1 rfl rfl rfl (by decide) (by decide) (by decide)⟩
-  | 2 => exact ⟨_, rfl, wt_pkgBuilder _ _ _ 1 2 3 1 rfl rfl rfl (by decide) (by decide) (by decide)⟩
-  | _ + 3 => exact ⟨_, rfl, trivial⟩
 
 theorem good_empty : GoodFS FS.empty.get :=
   ⟨fun _ _ _ h => (by cases h), fun _ _ h => (by cases h)⟩
@@ -184,11 +191,10 @@ theorem good_empty : GoodFS FS.empty.get :=
 theorem f19a_state :
     (runSched f19aSched ⟨FS.empty, f19aPool⟩).fs.resolve (.adv 3) = some (3, false) := by decide
 
-/-- T `adv_invariant_fails`: the full statement is false on the unchanged protocol -/
-theorem adv_invariant_fails : ¬ AdvInvariantFull := by
+/-- T: with `PackageData` as it was before the fix the statement of `adv_invariant` is false -/
+theorem adv_invariant_fails_before_fix : ¬ AdvOk (runSched f19aSched ⟨FS.empty, f19aPool⟩).fs := by
   intro h
-  have := h FS.empty f19aPool f19aSched good_empty f19aPool_fresh 3 3 false f19a_state
-  exact absurd this.2 (by decide)
+  exact absurd (h 3 3 false f19a_state).2 (by decide)
 
 /-- …and the damage is not only transient: if builder 1 is killed there too (the second crash), a
 third builder takes the hit path, reads the partial `.dat.tar` through its final name (a plain tar
@@ -197,17 +203,33 @@ theorem f19a_silent :
     let s := runSched (f19aSched ++ List.replicate 8 2) ⟨FS.empty, f19aPool⟩
     (s.procs 2).prog = .halt true ∧ (Name.adv 3, 3, false) ∈ (s.procs 2).obs := by decide
 
+theorem fixedPool_fresh : FreshPool fixedPool := by
+  intro i
+  match i with
+  | 0 => exact ⟨_, rfl, wt_pkgBuilder _ _ _ _ 1 2 3 1 rfl rfl rfl rfl (by decide) (by decide) (by decide) (by decide) (by decide) (by decide)⟩
+  | 1 => exact ⟨_, rfl, wt_pkgBuilder _ _ _ _ 1 2 3 1 rfl rfl rfl rfl (by decide) (by decide) (by decide) (by decide) (by decide) (by decide)⟩
+  | 2 => exact ⟨_, rfl, wt_pkgBuilder _ _ _ _ 1 2 3 1 rfl rfl rfl rfl (by decide) (by decide) (by decide) (by decide) (by decide) (by decide)⟩
+  | _ + 3 => exact ⟨_, rfl, trivial⟩
+
+/-- the hypotheses of `adv_invariant` are satisfiable by the real builders, and on the repaired tree
+the F19a schedule (continued: builder 1 killed after creating its temp, builder 2 recovering) ends
+with builder 2 having read the complete tar -/
+theorem fixed_f19a_schedule :
+    let s := runSched (List.replicate 26 0 ++ List.replicate 7 1 ++ List.replicate 14 2) ⟨FS.empty, fixedPool⟩
+    (s.procs 2).prog = .halt true ∧ (Name.adv 3, 3, true) ∈ (s.procs 2).obs ∧
+    s.fs.get (.adv 3) = some (.file 3 true) := by decide
+
 /-! ### advertised entries persist -/
 
-/-- a successful, well-typed, non-regenerating operation never changes an existing final name -/
-theorem adv_persist (s : State) (i : Nat) (h : Inv s.fs.get s.procs) (hr : s.atRegen i = false)
-    (k : Cid) (n : Node) (hk : s.fs.get (.adv k) = some n) : (s.step i).fs.get (.adv k) = some n := by
+/-- no step of any well-typed builder removes a final name (a `rename` may replace it — by the same
+complete content, see `inv_step`) -/
+theorem adv_present_persist (s : State) (i : Nat) (h : Inv s.fs.get s.procs)
+    (k : Cid) (hk : s.fs.get (.adv k) ≠ none) : (s.step i).fs.get (.adv k) ≠ none := by
   have hty := h.typed i
   rw [step_fs]
-  unfold State.atRegen at hr
-  revert hr hty
+  revert hty
   generalize hp : s.procs i = p
-  intro hr hty
+  intro hty
   obtain ⟨prog, Γ, obs, marks⟩ := p
   have hΓ : (s.procs i).ctx = Γ := by rw [hp]
   have tmpne : ∀ t, Owns Γ t → Name.adv k ≠ t := by
@@ -228,7 +250,7 @@ theorem adv_persist (s : State) (i : Nat) (h : Inv s.fs.get s.procs) (hr : s.atR
       simp only [stepOp]
       cases habs : s.fs.get t with
       | none =>
-        have : Name.adv k ≠ t := by intro e; rw [e, habs] at hk; cases hk
+        have : Name.adv k ≠ t := by intro e; rw [e] at hk; exact hk habs
         simp [FS.set, this, hk]
       | some n => exact hk
     | chunk t =>
@@ -247,7 +269,7 @@ theorem adv_persist (s : State) (i : Nat) (h : Inv s.fs.get s.procs) (hr : s.atR
       simp only [stepOp]
       cases habs : s.fs.get dst with
       | none =>
-        have : Name.adv k ≠ dst := by intro e; rw [e, habs] at hk; cases hk
+        have : Name.adv k ≠ dst := by intro e; rw [e] at hk; exact hk habs
         simp [FS.set, this, hk]
       | some n => exact hk
     | remove t =>
@@ -255,7 +277,16 @@ theorem adv_persist (s : State) (i : Nat) (h : Inv s.fs.get s.procs) (hr : s.atR
       obtain ⟨c0, hc0⟩ := hok
       have := tmpne t (owns_closed hc0)
       simp [FS.set, this, hk]
-    | regen dst c => simp [isRegen] at hr
+    | rename t dst =>
+      simp only [stepOp]
+      obtain ⟨k0, hk0, hdst⟩ := hok
+      have := tmpne t (owns_closed hk0)
+      have hgt := h.ownClosed i t k0 (by rw [hΓ]; exact hk0)
+      simp only [hgt, FS.set, this, if_false]
+      split
+      · simp
+      · exact hk
+    | regen dst c => exact hok.elim
     | read n checked =>
       simp only [stepOp]
       cases s.fs.resolve n with
@@ -275,33 +306,27 @@ theorem adv_persist (s : State) (i : Nat) (h : Inv s.fs.get s.procs) (hr : s.atR
           obtain ⟨c, b⟩ := cb
           by_cases hc : (!b) = true <;> simp [hc, hk]
 
-/-- T: once an advertised name resolves it resolves for ever, to the complete content it names —
-under every schedule of every pool (no `Remove`, `Rename` or retargeting ever touches it). -/
+theorem good_present_resolves {g : Name → Option Node} (hg : GoodFS g) {k : Cid}
+    (hk : g (.adv k) ≠ none) : resolveG g (.adv k) = some (k, true) := by
+  unfold resolveG
+  cases hn : g (.adv k) with
+  | none => exact absurd hn hk
+  | some n =>
+    cases n with
+    | file c b => have := hg.advFile k c b hn; simp [this.1, this.2]
+    | link t => simp [hg.advLink k t hn]
+
+/-- T: once an advertised name is present it resolves for ever, to the complete content it names —
+under every schedule of every pool (no `Remove` ever touches it, a `Rename` onto it carries the same
+content). -/
 theorem resolves_stable (sched : List Nat) (s : State) (h : Inv s.fs.get s.procs)
-    (hr : regenFree sched s) (k : Cid) (hk : s.fs.stat (.adv k) = true) :
+    (k : Cid) (hk : s.fs.get (.adv k) ≠ none) :
     (runSched sched s).fs.resolve (.adv k) = some (k, true) := by
   induction sched generalizing s with
-  | nil =>
-    simp only [runSched]
-    unfold FS.stat at hk
-    cases hres : s.fs.resolve (.adv k) with
-    | none => rw [hres] at hk; cases hk
-    | some cb =>
-      obtain ⟨c, b⟩ := cb
-      have := good_resolve h.good (by rw [← resolve_eq]; exact hres)
-      rw [this.1, this.2]
+  | nil => rw [resolve_eq]; exact good_present_resolves h.good hk
   | cons i rest ih =>
     simp only [runSched]
-    have h' := inv_step s i h hr.1
-    refine ih (s.step i) h' hr.2 ?_
-    unfold FS.stat FS.resolve at hk ⊢
-    cases hg : s.fs.get (.adv k) with
-    | none => rw [hg] at hk; cases hk
-    | some n =>
-      rw [adv_persist s i h hr.1 k n hg]
-      cases n with
-      | file c b => rfl
-      | link t => simp [h'.good.advLink k t (adv_persist s i h hr.1 k _ hg)]
+    exact ih (s.step i) (inv_step s i h) (adv_present_persist s i h k hk)
 
 /-! ### offline -/
 
@@ -366,7 +391,8 @@ Each list is the source-order sequence of durable calls of one function (`Point:
 `verifhook.Point("x …")` marker).  The model's programs mirror exactly these orders:
 `advertise` = Stat / Remove | Symlink; `indexOnline` = (get: Stat) MkdirAll, CreateTemp, mark 0, copy,
 mark 1, advertise, mark 2, Open; `pkgMiss` = MkdirTemp, mark 0, Next/Create …, `cachePackage`'s
-advertises in the order ctl, (sig), dat, tar with marks 5–8; `pkgData` = Open tar | Open gz, mark 9, … -/
+advertises in the order ctl, (sig), dat, tar with marks 5–8; `pkgData` = Open tar | Open gz, mark 9,
+CreateTemp, mark 10, copy, close, Rename, mark 11, Open (the `os.Remove`s are on error paths). -/
 
 theorem tie_advertise : Generated.cache_advertiseCalls = ["os.Stat", "os.Remove", "os.Symlink"] := rfl
 
@@ -395,8 +421,9 @@ theorem tie_expandPackage : Generated.cache_expandPackageCalls =
     ["a.cachedPackage", "os.MkdirAll", "a.FetchPackage", "expandapk.ExpandApk", "a.cachePackage"] := rfl
 
 theorem tie_packageData : Generated.cache_packageDataCalls =
-    ["os.Open", "os.Open", "Point:regen.begin", "os.Create", "Point:regen.created", "io.CopyBuffer",
-     "uf.Close", "Point:regen.done", "os.Open"] := rfl
+    ["os.Open", "os.Open", "Point:regen.begin", "os.CreateTemp", "Point:regen.created", "io.CopyBuffer",
+     "uf.Close", "os.Remove", "uf.Close", "os.Remove", "os.Rename", "os.Remove", "Point:regen.done",
+     "os.Open"] := rfl
 
 theorem tie_expandApk : Generated.cache_expandApkCalls =
     ["os.MkdirTemp", "Point:expand.dir", "sw.Next", "io.Copy", "os.Create", "Point:expand.tar",
